@@ -298,6 +298,13 @@ def rules(P, R, prefix="C13"):
                         "pending batch requests are garbage-collected under `%s` with bound %s (required: only when round >= gc_depth, bound = round - "
                         "gc_depth): young requests are cancelled and never retried" % (show(pc), [ctx.term(x["init"]) for x in gc_vars]))
 
+        from ..common import fresh_timer_arms
+        fta = fresh_timer_arms([f for f in prog.fns.values() if f.self_ty == MSYNC and not f.derived])
+        for (f_, n_, b_), i in ordinal_keys(fta, lambda x: x[0].path):
+            R.fail(prefix + ".E3", key(f_, "retry timer is created outside the loop" + tag, i), n_["sp"],
+                   "the retry timer is created in the select! arm itself (`%s`): every sync command or delivered batch restarts it, so a "
+                   "lost request is never retried under load" % ir.pp(b_["fut"], maxlen=80))
+        R.ok(prefix + ".E3", "no per-iteration retry timer" + tag + " (%d found)" % len(fta), "", "")
         # ---------------- E4 one store
         nn = prog.fn("node::node::Node::new")
         if R.judge(nn is not None, prefix + ".E4", "anchor Node::new" + tag, "", "", "anchor-missing", reason="anchor-missing"):
@@ -344,3 +351,8 @@ def check(P, R, tier):
     # Store::notify_read, so every waiter registered for a key must be woken by the write of that key, whatever the order in
     # which the write and the registration reach the store task (C16.T2/T3/T4)
     fold(R, P, "c16", ("C16.T2", "C16.T3", "C16.T4"), "C13.E8", 30)
+    # a block that was resumed (its batch arrived) is stored whatever round the node is in by then, or the blocks that were
+    # received meanwhile and parked on it never resume (C07.Y4)
+    fold(R, P, "c07", ("C07.Y4",), "C13.E9", 6)
+    # batches travel as single frames: the receiving side must accept every frame the sending side can write (C14.F8)
+    fold(R, P, "c14", ("C14.F8",), "C13.E10", 2)
